@@ -66,7 +66,7 @@ var (
 	once     sync.Once
 	dir      string
 	label    string
-	HangTime = 10 * time.Second
+	HangTime = 20 * time.Second
 	// HeapBase is the heap the watchdog tolerates on top of 16x the declared
 	// size of the case in flight.
 	HeapBase uint64 = 1 << 30
